@@ -135,7 +135,8 @@ def main(run):
         pairs.append(p)
     mh.execute(run, pairs, shoot=shoot, par=4, tag="c09")
     uncert = []
-    verdicts, guards = mh.coq_verdicts(run, pairs, tag="c09", shard_cases=220, par=4, fn="mismatches09", cert=uncert)
+    gen = {}
+    verdicts, guards = mh.coq_verdicts(run, pairs, tag="c09", shard_cases=220, par=4, fn="mismatches09", cert=uncert, gen=gen)
     c05.report(run, pairs, verdicts, guards,
                "C09_no_panic_to / C09_no_panic_from / C09_nil_in_nil_out / C09_receiver_irrelevant",
                "L2:C09:generated ToX/FromX on nil-saturated values vs Model/MapperEval.v")
@@ -145,6 +146,10 @@ def main(run):
         run.violation(mh.replay_dict(idx[pi], ci, 1, {
             "kind": "the plans of this pair do not pass plans_safe (or the input is not well typed): "
                     "C09_no_panic_to/from does not apply", "theorem": "C09_no_panic_to / C09_no_panic_from"}), no_input=True)
+    for pi in [i for i, v in sorted(gen.items()) if v == 2][:2]:
+        run.violation(mh.replay_dict(idx[pi], None, 2, {
+            "kind": "the pair is inside gen_guard but its evaluated plans do not pass plans_safe: the rendering breaks a "
+                    "hypothesis of C09_generated_plans_safe", "theorem": "C09_generated_plans_safe"}), no_input=True)
     for pi, a, b in bad_twins[:2]:
         run.violation(mh.replay_dict(idx[pi], a, 2, {"kind": "FromX result depends on the receiver's previous content",
                                                      "theorem": "C09_receiver_irrelevant", "other_case": idx[pi].cases[b]}))
@@ -187,6 +192,8 @@ def main(run):
         "nil_positions_per_root": dict(sorted(collections.Counter(positions).items())),
         "receiver_twins_compared": ntwins,
         "cases_certified_by_theorem": ncases - len(uncert),
+        "pairs_in_gen_guard": sum(1 for p in ok_pairs if gen.get(p.idx) == 1),
+        "pairs_outside_gen_guard": sum(1 for p in ok_pairs if gen.get(p.idx, 0) == 0),
         "observations": dict(obs),
         "features": dict(sorted(feats.items())),
     }
